@@ -251,7 +251,7 @@ harness_nodec!(
 // record evolution: fields matched by name regardless of order, writer-only fields dropped,
 // reader-only fields filled from their declared default (for a union: the FIRST branch)
 
-fn field_d(n: &str, schema: Schema, default: Option<serde_json::Value>) -> apache_avro::schema::RecordField {
+pub fn field_d(n: &str, schema: Schema, default: Option<serde_json::Value>) -> apache_avro::schema::RecordField {
     let mut f = field(n, schema);
     // in place, see schemas::record
     leak(std::mem::replace(&mut f.default, default));
